@@ -85,6 +85,7 @@ type input struct {
 	Ver        int         `json:"ver"`
 	InitLen    int         `json:"initlen"`
 	StartL1    int         `json:"startl1"`
+	FixL1Order bool        `json:"fixl1order"`
 	Behaviours []behaviour `json:"behaviours"`
 	First      int         `json:"first"`
 }
